@@ -94,6 +94,11 @@ def cases(ctx):
                     ys.append(others[oi]); oi += 1
             xs = ys + others[oi:]
         out.append(("sparse", {"dt": dt, "level": rng.choice([8, 9, 10, 12]), "order": 0, "gcds": rng.below(2), "chunks": [xs], "kinds": ["sparse-" + arr], "drain": 0}))
+    # (1b) a handful of distinct single values with lattice gaps (see C10's singles family): merged ranges must record the
+    # exact GCD although no raw range carries a divisor
+    from . import c10
+    for c in c10.singles_cases(rng, 60 if ctx.quick else 600):
+        out.append(("gcd", c))
     # (3) vanishing d-th differences
     for _ in range(200 if ctx.quick else 2500):
         dt = rng.choice(S.ALL_DT)
